@@ -1,7 +1,7 @@
 (** C07 - every page is accounted for exactly once after every commit.
     [Layout.accounted] is the decision procedure the harness evaluates on the independent decoder's view of every
     file image; this file proves that a "yes" of that procedure is the declarative partition. *)
-From Bbolt Require Import Base Consts Spec Fnv Layout LayoutProofs Pager PagerProofs.
+From Bbolt Require Import Base Consts Spec Fnv Layout LayoutProofs LayoutOrderProofs Pager PagerProofs.
 
 Theorem C07_accounting_decision_sound : forall v free,
   accounted v free = true ->
@@ -28,3 +28,11 @@ Print Assumptions C07_nothing_listed_beyond_mark.
 Theorem C07_invariant_reachable : forall ls s s', Inv s -> prun s ls = Some s' -> Inv s'.
 Proof. exact inv_run. Qed.
 Print Assumptions C07_invariant_reachable.
+
+(** what the independent decoder calls "keys in order" ([v_order], evaluated on every committed image) means that the
+    decoded content is a sorted association list at every nesting level - a well-formed state of the reference map *)
+Theorem C07_decoder_order_means_sorted : forall rd ps fuel m v,
+  dec_with_meta rd ps fuel m = Some v -> v_order v = true ->
+  keys_sorted (snd (v_root v)) = true /\ all_sorted fuel (snd (v_root v)) = true.
+Proof. exact dec_with_meta_sorted. Qed.
+Print Assumptions C07_decoder_order_means_sorted.
